@@ -68,3 +68,13 @@ Proof. vm_compute. intuition (discriminate || reflexivity). Qed.
    append behind it (PADDING_SIZE is dumped from the crate, G_MAX_BLOCK is read from the source) *)
 Theorem padding_covers_block_loads : forall len i, 0 <= i < len -> i + G_MAX_BLOCK <= len + Z.of_N PADDING_SIZE.
 Proof. intros len i H. assert (G_MAX_BLOCK <= Z.of_N PADDING_SIZE) by (vm_compute; discriminate). lia. Qed.
+
+(* combinations quoted by Props/C01.v and Props/C04.v *)
+Lemma float_table_indices :
+  0 <= - G_CL_LO < POW10_FLOAT_LEN /\ G_CL_SPLIT < POW10_FLOAT_LEN /\ G_CL_SPLIT_MUL < POW10_FLOAT_LEN /\
+  G_CL_HI - G_CL_SPLIT_SUB < POW10_FLOAT_LEN /\ 0 < G_CL_SPLIT + 1 - G_CL_SPLIT_SUB /\
+  0 <= (G_NF_LO + 1) + G_NF_IDX /\ (G_NF_HI - 1) + G_NF_IDX < POW5_LEN.
+Proof. pose proof clinger_guard as C. pose proof normal_fast_guard as N. intuition. Qed.
+Lemma float_fast_path_guards_ok :
+  2 ^ G_CL_SHIFT <= 2 ^ 53 /\ (2 ^ 64 - 1) * 10 ^ (G_NF_HI - 1) < 2 ^ 1024 - 2 ^ 970 /\ 10 ^ (- (G_NF_LO + 1)) <= 2 ^ 1022.
+Proof. pose proof clinger_guard as C. pose proof normal_fast_guard as N. intuition. Qed.
